@@ -146,6 +146,8 @@ prop('C03',
              'thorough': 'destination 1..4 channels, 0..4 frames; source 0..4 frames; all 13 element types'},
      outside=['sources overlapping the destination spare capacity (excluded by the property, other than self-append)', 'capacities chosen by Go releases other than the modelled growslice', 'larger shapes'])
 
+HUGE = 65543
+
 prop('C05', opts={'abstract_fp': True},
      harnesses=[{'name': 'C05_' + fn, 'types': {'quick': conv_pairs(fn, 1), 'thorough': conv_pairs(fn, 0)},
                  'params': {'quick': {'MaxC': 2, 'MaxK': 2, 'Unaligned': 1}, 'thorough': {'MaxC': 2, 'MaxK': 2, 'Unaligned': 1}},
@@ -154,9 +156,12 @@ prop('C05', opts={'abstract_fp': True},
        'params': {'thorough': {'MaxC': 3, 'MaxK': 1, 'Unaligned': 1}}} for fn in CONVS] +
      [{'name': 'C05_Big_' + fn, 'types': {'quick': big_pairs(fn), 'thorough': conv_pairs(fn, 2) + big_pairs(fn)},
        'params': {'quick': {'BigFrames': 600}, 'thorough': {'BigFrames': 2048}}, 'covers': ['big']} for fn in CONVS] +
+     # past 2^16 samples (size-dependent paths, library-internal goroutines): 65543 is prime, so no worker count divides it
+     [{'name': 'C05_Big_' + fn, 'types': {'quick': [], 'thorough': big_pairs(fn)[:1]}, 'params': {'thorough': {'BigFrames': HUGE}},
+       'splits': [{'C': 1, 'at': 2}, {'C': 2, 'at': 2}, {'C': 1, 'at': 1}], 'opts': {'abstract_fp': True, 'max_make': 1 << 17, 'max_instr': 40_000_000}, 'covers': ['big']} for fn in CONVS] +
      [{'name': 'C05_FloatAsFloatValue', 'types': [(a, b) for a in FLOATS for b in FLOATS], 'opts': {'abstract_fp': False}}],
      bounds={'quick': 'source and destination: every window of buffers with 1..2 channels and 0..2 frames, plus 0..C-1 extra samples on either side (unaligned lengths); sample values and witness positions symbolic; 2 type pairs per conversion; FloatAsFloat value preservation for all float32/float64 bit patterns (4 pairs)',
-             'thorough': 'all 169 instantiations at 1..2 channels, 0..2 frames; 1 pair per conversion at 3 channels, 0..1 frames; 2048-frame buffers for 4-6 pairs per conversion'},
+             'thorough': 'all 169 instantiations at 1..2 channels, 0..2 frames; 1 pair per conversion at 3 channels, 0..1 frames; 2048-frame buffers for 4-6 pairs per conversion; 65543-sample buffers (1 and 2 channels, one symbolic sample in the middle or at the end) for 1 pair per conversion, GOMAXPROCS stubbed to 4'},
      outside=['larger shapes', 'value-level behaviour of the eight fixed-point conversions (C06-C09)'])
 
 NAMED = ['NamedInt8', 'NamedInt16', 'NamedInt32', 'NamedInt64', 'NamedInt', 'NamedUint8', 'NamedUint16', 'NamedUint32',
@@ -228,14 +233,25 @@ prop('C07',
              'thorough': 'all 121 pairs'},
      outside=['buffers with more frames/channels (position-wise behaviour is C05)'])
 
+
+
+def BIGCYCLE(pid):
+    # get / dirty / put / get on pooled buffers past 2^12 (quick) and 2^16 (thorough) samples: size-dependent paths of Put
+    return {'name': pid + '_BigCycle', 'types': {'quick': ['int16'] if pid == 'C10' else [], 'thorough': ['int8', 'float64']},
+            'params': {'quick': {'HugeSamples': 4100}, 'thorough': {'HugeSamples': HUGE}},
+            'splits': [{'C': c, 'at': a} for c in (1, 2) for a in (0, 1, 2)],
+            'opts': {'threads': True, 'pool_mode': 'all', 'max_make': 1 << 17, 'max_instr': 40_000_000}, 'covers': ['big-cycle']}
+
+
 prop('C10',
      harnesses=[{'name': 'C10_Cycle', 'types': {'quick': ['int8', 'uint16', 'float64'], 'thorough': ALL},
                  'params': {'quick': {'MaxPoolC': 3, 'MaxPoolK': 2}, 'thorough': {'MaxPoolC': 3, 'MaxPoolK': 3}},
                  'covers': ['use-write', 'use-append-sample', 'use-append', 'use-shorter-slice', 'use-longer-slice']},
                 {'name': 'C10_TwoCycles', 'types': {'quick': ['int8', 'float64'], 'thorough': QUICK_T},
-                 'params': {'quick': {'MaxPoolC': 2, 'MaxPoolK': 1}, 'thorough': {'MaxPoolC': 2, 'MaxPoolK': 2}}}],
+                 'params': {'quick': {'MaxPoolC': 2, 'MaxPoolK': 1}, 'thorough': {'MaxPoolC': 2, 'MaxPoolK': 2}}},
+                BIGCYCLE('C10')],
      bounds={'quick': 'allocators with 1..3 channels, capacity 0..2 frames, every length 0..capacity; one inductive step get/arbitrary use/put/get where use = overwrite the whole capacity with symbolic samples then one of {nothing, 1..C+1 single-sample appends, buffer append of 0..2 frames, frame-0 reslice shorter, frame-0 reslice longer}; sync.Pool modelled as a multiset whose Get returns any pooled item or a new one; two-buffer variant with capacity <= 1 frame',
-             'thorough': '1..3 channels, capacity 0..3 frames; all 13 element types; two-buffer variant up to 2 frames'},
+             'thorough': '1..3 channels, capacity 0..3 frames; all 13 element types; two-buffer variant up to 2 frames; one get/dirty/put/get cycle on 65543-sample buffers (quick: 4100), 1..2 channels, symbolic dirt at the start, middle or end'},
      level_note='One inductive step from an arbitrary reachable buffer state covers histories of any length provided every pooled buffer is fresh (that is what the step re-establishes); the two-cycle harness is a sanity unrolling.',
      outside=['sync.Pool internals (modelled, not verified)', 'larger shapes'])
 
@@ -280,11 +296,15 @@ prop('C19', opts={'threads': True, 'abstract_fp': True}, race_replay=True,
                  'params': {'thorough': {'MaxC': 2, 'MaxK': 1, 'Readers': 3}}, 'covers': ['joined']},
                 {'name': 'C19_Writers', 'types': {'quick': ['int8', 'float64'], 'thorough': QUICK_T},
                  'splits': {'quick': [{'C': c} for c in (1, 2)], 'thorough': [{'C': c, 'K': k} for c in (1, 2, 3) for k in (1, 2)]},
-                 'params': {'quick': {'MaxC': 2, 'MaxK': 2}, 'thorough': {'MaxC': 3, 'MaxK': 2}}, 'covers': ['joined', '@par-joined']}] +
+                 'params': {'quick': {'MaxC': 2, 'MaxK': 2}, 'thorough': {'MaxC': 3, 'MaxK': 2}}, 'covers': ['joined', '@par-joined']},
+                # bulk reads of a shared buffer past 2^12 (quick) / 2^16 (thorough) samples: size-dependent paths, library-internal goroutines
+                {'name': 'C19_BigStriped', 'types': {'quick': ['int16'], 'thorough': ['int8', 'float64']},
+                 'splits': [{'at': a} for a in (0, 1, 2)], 'params': {'quick': {'HugeSamples': 4100}, 'thorough': {'HugeSamples': HUGE}},
+                 'opts': {'threads': True, 'abstract_fp': True, 'max_make': 1 << 17, 'max_instr': 40_000_000}, 'covers': ['joined']}] +
      [{'name': 'C19_Conv_' + fn, 'types': {'quick': big_pairs(fn)[:1], 'thorough': conv_pairs(fn, 2) + big_pairs(fn)},
        'params': {'quick': {'MaxC': 2, 'MaxK': 2}, 'thorough': {'MaxC': 2, 'MaxK': 2}}, 'covers': ['joined']} for fn in CONVS],
      bounds={'quick': 'conversion sources: 2 goroutines converting one shared window into their own destinations (all nine conversions); readers: 2 goroutines, each running every read-only entry point (getters, Sample, Read, ReadStriped, Slice, Channel view, BufferIndex) with arbitrary arguments on one shared window of a buffer with 1..2 channels, 1..2 frames; writers: frame ranges [0,a) [a,b) [b,K) for every a<=b<=K<=2, two writers (Write / WriteStriped / SetSample loops / channel-view SetSample) and one reader; all orders of the goroutines; every pair of logged accesses checked for an unordered conflict',
-             'thorough': '2 readers for 5 element types; 3 readers on 1-frame buffers; writers with 1..3 channels and 1..2 frames; 4 type pairs per conversion source'},
+             'thorough': '2 readers for 5 element types; 3 readers on 1-frame buffers; writers with 1..3 channels and 1..2 frames; 4 type pairs per conversion source; a striped and an interleaved bulk read running concurrently on a shared 2-channel buffer of 65542 samples (quick: 4100), GOMAXPROCS stubbed to 4'},
      level_note='Goroutines contain no synchronisation, so every cross-goroutine access pair is concurrent: race freedom is decided by a solver query per pair of accesses to the same object (can the two index expressions be equal?), results are compared with the sequential run. 16 goroutines add no pair types beyond those of 2-3 goroutines running the same entry points but are formally outside the bound.',
      outside=['more than 3 goroutines', 'larger shapes'])
 
@@ -294,9 +314,10 @@ prop('C11', opts={'threads': True, 'pool_mode': 'all'}, race_replay=True, stress
                  'params': {'quick': {'MaxPoolC': 2, 'MaxPoolK': 1, 'G': 2, 'M': 1}, 'thorough': {'MaxPoolC': 2, 'MaxPoolK': 1, 'G': 3, 'M': 1}}, 'covers': ['joined', '@par-joined']},
                 {'name': 'C11_Workers', 'types': {'quick': ['int8'], 'thorough': ['int8', 'float64']},
                  'splits': [{'by-value': b, 'C': c, 'K': k, 'L': l} for b in (0, 1) for c in (1, 2) for k in (0, 1) for l in (0, 1)],
-                 'params': {'quick': {'MaxPoolC': 1, 'MaxPoolK': 1, 'G': 2, 'M': 2}, 'thorough': {'MaxPoolC': 2, 'MaxPoolK': 1, 'G': 2, 'M': 2}}, 'covers': ['joined']}],
+                 'params': {'quick': {'MaxPoolC': 1, 'MaxPoolK': 1, 'G': 2, 'M': 2}, 'thorough': {'MaxPoolC': 2, 'MaxPoolK': 1, 'G': 2, 'M': 2}}, 'covers': ['joined']},
+                BIGCYCLE('C11')],
      bounds={'quick': 'G=2 goroutines x M=1 cycle (allocators with 1..2 channels, capacity 0..1 frame, every length) and G=2 x M=2 (1 channel, capacity 0..1); allocator shared by pointer and by value copies; every interleaving of the pool operations (scheduling points: Pool.Get, Pool.Put, the moment before a goroutine gives up its buffer, goroutine start/end) and every pool outcome (any pooled buffer, or a new one as after a GC); per path: exclusivity at every Get, freshness, stamp integrity, and a solver query for every unordered conflicting access pair',
-             'thorough': 'G=3 x M=1 and G=2 x M=2 with 1..2 channels'},
+             'thorough': 'G=3 x M=1 and G=2 x M=2 with 1..2 channels; one single-goroutine cycle on 65543-sample buffers (size-dependent paths of Put, library-internal goroutines race-checked, GOMAXPROCS stubbed to 4)'},
      level_note='sync.Pool itself (per-P caches, victim cache, atomics), the Go scheduler and the garbage collector are not encoded: they are replaced by a linearizable multiset whose Get may return any pooled item or a freshly allocated one, with the documented Put->Get happens-before edge. GOMAXPROCS and forced GCs of the property are subsumed by that nondeterminism; G up to 64 is reduced to G<=3. Segments between pool operations run atomically, justified by the race check itself (DRF-SC).',
      outside=['sync.Pool internals, scheduler, GC', 'G > 3 goroutines, M > 2 cycles', 'larger buffers'])
 
